@@ -236,10 +236,25 @@ func prop(c harness.Case) harness.Result {
 		maps = []cm.ReferenceMap{nil, {"zz-not-in-the-document": cm.LinkDefinition{Destination: "/f\"<>", Title: "t\"<&", TitlePresent: true}}}
 		res.Labels = append(res.Labels, "rendered_with_foreign_reference_map")
 	}
+	// every other case uses one renderer value for all its configurations, and
+	// that value has rendered the document with raw HTML passed through before
+	// (a caller may keep a renderer and change its fields; what it writes
+	// depends on the fields at the call)
+	var kept *cm.HTMLRenderer
+	if len(c.In)%2 == 0 {
+		kept = &cm.HTMLRenderer{ReferenceMap: refs}
+		var sink bytes.Buffer
+		kept.Render(&sink, blocks)
+		res.Labels = append(res.Labels, "one_renderer_value_reconfigured")
+	}
 	for _, cf0 := range cfgs {
 		for _, rmap := range maps {
 			cf, refs := cf0, rmap
-			r := &cm.HTMLRenderer{ReferenceMap: refs, SoftBreakBehavior: cf.soft, IgnoreRaw: cf.ignore}
+			r := &cm.HTMLRenderer{}
+			if kept != nil {
+				r = kept
+			}
+			r.ReferenceMap, r.SoftBreakBehavior, r.IgnoreRaw = refs, cf.soft, cf.ignore
 			total := map[string]int{}
 			for bi, b := range blocks {
 				out := string(r.AppendBlock(nil, b))
